@@ -7,7 +7,10 @@ import GoldModel.Drive.ExSpec
 `Kind:value:sl:sc:el:ec`, `ex` = the prefix form of `exspec`):
 
     prog   := decl*
-    decl   := DP t t params stmts t | DF t t params t t stmts t | DC t t t t | DV t t t | DK - t t | DK + t t t t t
+    decl   := DP t mname params mods body | DF t mname params t t mods body | DC t t t t | DV t t t | DK - t t | DK + t t t t t
+    mname  := N t | V t t t
+    mods   := { (M t | X t t)* }
+    body   := - | + stmts t
     params := - | E t t | L t param (, t param)* . t
     param  := M t t t t | N t t t
     stmts  := [ stmt* ]
@@ -120,14 +123,44 @@ partial def tail : P (IfTail Ex)
   | _ => none
 end
 
+def mname : P MName
+  | "N" :: ws => do
+    let (t, ws) ← tok ws
+    pure (.plain t, ws)
+  | "V" :: ws => do
+    let (m, ws) ← tok ws; let (p, ws) ← tok ws; let (e, ws) ← tok ws
+    pure (.event m p e, ws)
+  | _ => none
+
+partial def modList : P (List Mod)
+  | "}" :: ws => some ([], ws)
+  | "M" :: ws => do
+    let (t, ws) ← tok ws; let (more, ws) ← modList ws
+    pure (.plain t :: more, ws)
+  | "X" :: ws => do
+    let (e, ws) ← tok ws; let (s, ws) ← tok ws; let (more, ws) ← modList ws
+    pure (.ext e s :: more, ws)
+  | _ => none
+
+def mods : P (List Mod)
+  | "{" :: ws => modList ws
+  | _ => none
+
+def body : P (Option (List (Stmt Ex) × Tok))
+  | "-" :: ws => some (none, ws)
+  | "+" :: ws => do
+    let (b, ws) ← stmts ws; let (e, ws) ← tok ws
+    pure (some (b, e), ws)
+  | _ => none
+
 def decl : P (Decl Ex)
   | "DP" :: ws => do
-    let (k, ws) ← tok ws; let (n, ws) ← tok ws; let (ps, ws) ← params ws; let (b, ws) ← stmts ws; let (e, ws) ← tok ws
-    pure (.proc k n ps b e, ws)
+    let (k, ws) ← tok ws; let (n, ws) ← mname ws; let (ps, ws) ← params ws; let (ms, ws) ← mods ws; let (b, ws) ← body ws
+    pure (.proc k n ps ms b, ws)
   | "DF" :: ws => do
-    let (k, ws) ← tok ws; let (n, ws) ← tok ws; let (ps, ws) ← params ws; let (r, ws) ← tok ws; let (t, ws) ← tok ws
-    let (b, ws) ← stmts ws; let (e, ws) ← tok ws
-    pure (.func k n ps r t b e, ws)
+    let (k, ws) ← tok ws; let (n, ws) ← mname ws; let (ps, ws) ← params ws; let (r, ws) ← tok ws; let (t, ws) ← tok ws
+    let (ms, ws) ← mods ws; let (b, ws) ← body ws
+    pure (.func k n ps r t ms b, ws)
   | "DC" :: ws => do
     let (k, ws) ← tok ws; let (n, ws) ← tok ws; let (q, ws) ← tok ws; let (l, ws) ← tok ws
     pure (.const k n q l, ws)
